@@ -206,6 +206,29 @@ func (c *checker) CheckFunctions(t *parser.Thrift) (warns []string, err error) {
 				err = fmt.Errorf("[IDL grammar error] %s.%s: oneway methods can't throw exceptions from file %s", svc.Name, f.Name, t.Filename)
 				return
 			}
+			// argument and throws lists are field lists: ids and names
+			// must be unique in them, like in a struct
+			for _, list := range []struct {
+				kind   string
+				fields []*parser.Field
+			}{{"arguments", f.Arguments}, {"throws", f.Throws}} {
+				fieldIDs := make(map[int32]bool)
+				names := make(map[string]bool)
+				for _, a := range list.fields {
+					if fieldIDs[a.ID] {
+						err = fmt.Errorf("[IDL grammar error] duplicated field ID %d in %s of %s.%s from file %s",
+							a.ID, list.kind, svc.Name, f.Name, t.Filename)
+						return
+					}
+					if names[a.Name] {
+						err = fmt.Errorf("[IDL grammar error] duplicated field name %q in %s of %s.%s from file %s",
+							a.Name, list.kind, svc.Name, f.Name, t.Filename)
+						return
+					}
+					fieldIDs[a.ID] = true
+					names[a.Name] = true
+				}
+			}
 			for _, a := range f.Arguments {
 				if a.Requiredness == parser.FieldType_Optional {
 					argOpt = t.Filename + ": optional keyword is ignored in argument lists."
